@@ -33,6 +33,14 @@ func (o *Operations) Update(
 		return []*tar.Header{}, err
 	}
 
+	// Release the drive again if we return before handing it over to the reader
+	writerClosed := false
+	defer func() {
+		if !writerClosed {
+			_ = o.backend.CloseWriter()
+		}
+	}()
+
 	dirty := false
 	tw, cleanup, err := tarext.NewTapeWriter(writer.Drive, writer.DriveIsRegular, o.pipes.RecordSize)
 	if err != nil {
@@ -279,6 +287,7 @@ func (o *Operations) Update(
 		return []*tar.Header{}, err
 	}
 
+	writerClosed = true
 	if err := o.backend.CloseWriter(); err != nil {
 		return []*tar.Header{}, err
 	}
